@@ -6,7 +6,7 @@ DRIVER = "fvd_c01"
 DRIVER_TAKES_ANSWER = True
 LEAN_TARGETS = ["FalconProofs.Props.C01", "fvd_c01"]
 PROPS_MODULE = "FalconProofs.Props.C01"
-LEVEL = "translation_validation"
+LEVEL = "proof"
 GEN_TIMEOUT = 3000
 RULE = ("one instruction x one machine state per case. Encodings: hand-written opcode-map rows for every mnemonic the x86 "
         "dispatcher accepts (one-byte map ALU/shift/mov/stack/string/control rows, 0f map, SSE subset) x operand-size/REX.W/"
